@@ -283,11 +283,16 @@ def serialise(rng, g, one_file=False, base_name=True, uri_rng=None, extras=True)
         else:
             out.write('<UANodeSet xmlns="%s" xmlns:xsd="http://www.w3.org/2001/XMLSchema">' % NS_XSD)
         out.write(ws())
+        cm = lambda: ("<!-- %s -->" % rng.choice(["generated", "x < y & z", "NamespaceUris", "a -"])) if rng.random() < 0.12 else ""   # noqa: E731
+        out.write(cm())
         if uris:
             out.write("<%sNamespaceUris>%s" % (p, ws()))
             for u in uris:
                 out.write("<%sUri>%s</%sUri>%s" % (p, escape(u), p, ws()))
             out.write("</%sNamespaceUris>%s" % (p, ws()))
+            if rng.random() < 0.08:
+                out.write("<%sServerUris><%sUri>urn:server:%d</%sUri></%sServerUris>" % (p, p, rng.randint(0, 9), p, p))
+        out.write(cm())
         out.write("<%sModels>" % p)
         for u in grp:
             m = g["models"][u]
@@ -310,6 +315,7 @@ def serialise(rng, g, one_file=False, base_name=True, uri_rng=None, extras=True)
         for nm, c_ in names.items():
             out.write("<%sAlias Alias=\"%s\">%s</%sAlias>%s" % (p, nm, escape(nid_text(c_, local)), p, ws()))
         out.write("</%sAliases>%s" % (p, ws()))
+        out.write(cm())
 
         def idref(key, allow_alias=True):
             if allow_alias and key in alias and rng.random() < 0.7:
@@ -383,13 +389,15 @@ def infoset(text):
         d["uris"] = [u.text for u in nsu if u.tag == X + "Uri"]
     for ms in root.iter(X + "Models"):
         for m in ms:
+            if not isinstance(m.tag, str):
+                continue
             d["models"].append({"uri": m.get("ModelUri"), "publication_date": m.get("PublicationDate"), "version": m.get("Version"),
                                 "required": [{"uri": r.get("ModelUri"), "publication_date": r.get("PublicationDate"), "version": r.get("Version")}
-                                             for r in m.iterchildren()]})
+                                             for r in m.iterchildren() if isinstance(r.tag, str)]})
     for a in root.iter(X + "Alias"):
         d["aliases"].append([a.attrib["Alias"], a.text])
     for e in root:
-        if _local(e.tag) in CLASSES and e.tag.startswith(X):
+        if isinstance(e.tag, str) and _local(e.tag) in CLASSES and e.tag.startswith(X):
             val = e.find(X + "Value")
             d["nodes"].append({
                 "cls": _local(e.tag), "attrs": [[k, v] for k, v in e.attrib.items()],
